@@ -471,6 +471,18 @@ func c07Exec(a *c07frames.Alphabet, c c07Case, validating bool) (res c07Result) 
 
 var c07Validated bool
 
+// c07ValFail: an alphabet frame that is not extracted correctly even when it is
+// delivered alone and whole. On the unchanged tree there is none (the alphabet
+// only contains frames the codecs handle); after a change of the tree it is a
+// violation like any other (whole delivery is one of the segmentations), reported
+// by the segmentation part with the single-frame case as replayable case.
+type c07ValFail struct {
+	key, detail string
+	c           c07Case
+}
+
+var c07ValFails []c07ValFail
+
 func c07Validate(t *testing.T) {
 	if c07Validated {
 		return
@@ -491,10 +503,18 @@ func c07Validate(t *testing.T) {
 				mode = "server"
 			}
 			for _, feed := range []string{"write", "readonce"} {
-				res := c07Exec(a, c07Case{Proto: string(a.Proto), Mode: mode, Frames: []int{i}, Feed: feed}, true)
-				if res.harness != "" || res.fail != nil || len(res.decoded) != 1 {
-					bad(fmt.Sprintf("alphabet frame %s/%s (%x) is not handled alone (%s, %s): harness=%q fail=%+v decoded=%d",
-						a.Proto, fr.Name, fr.Bytes, mode, feed, res.harness, res.fail, len(res.decoded)))
+				c := c07Case{Proto: string(a.Proto), Mode: mode, Frames: []int{i}, Names: []string{fr.Name}, Feed: feed, Len: len(fr.Bytes)}
+				res := c07Exec(a, c, true)
+				if res.harness != "" {
+					bad(fmt.Sprintf("alphabet frame %s/%s: %s", a.Proto, fr.Name, res.harness))
+				}
+				if res.fail != nil {
+					c07ValFails = append(c07ValFails, c07ValFail{key: res.fail.key, detail: "frame delivered alone: " + res.fail.detail, c: c})
+					delete(c07Exp, c07ExpKey{a.Proto, i})
+					break
+				}
+				if len(res.decoded) != 1 {
+					bad(fmt.Sprintf("alphabet frame %s/%s: %d frames decoded without a recorded deviation", a.Proto, fr.Name, len(res.decoded)))
 				}
 				sig := res.decoded[0].sig
 				ek := c07ExpKey{a.Proto, i}
@@ -506,7 +526,7 @@ func c07Validate(t *testing.T) {
 				wantType := map[string]api.StreamType{c07frames.Req: api.Request, c07frames.OneWay: api.RequestOneWay, c07frames.HB: api.Request,
 					c07frames.Resp: api.Response, c07frames.HBResp: api.Response}[fr.Kind]
 				if sig.Type != string(wantType) || sig.ID != fr.ID || sig.HB != (fr.Kind == c07frames.HB || fr.Kind == c07frames.HBResp) {
-					bad(fmt.Sprintf("alphabet frame %s/%s: constructed as %s id %d but the codec sees %+v", a.Proto, fr.Name, fr.Kind, fr.ID, sig))
+					bad(fmt.Sprintf("alphabet frame %s/%s: constructed as %s id %d but the codec sees %+v (the harness alphabet no longer fits the codec)", a.Proto, fr.Name, fr.Kind, fr.ID, sig))
 				}
 			}
 		}
@@ -545,6 +565,11 @@ func TestVerifC07Segmentation(t *testing.T) {
 	p := vreport.Begin("C07", "xprotocol-segmentation", 12*time.Minute)
 	bound := c07TierBound()
 	shardI, shardN := vreport.Shard()
+	if !vreport.Replaying() {
+		for _, f := range c07ValFails {
+			p.Violation(f.key, f.detail, f.c)
+		}
+	}
 	gen := func(yield func(c07Case) bool) {
 		n := 0
 		for _, a := range c07frames.Alphabets() {
